@@ -50,3 +50,9 @@ Definition sko_control_whitelist (o : sko_opts) (n : sko_net) : sko_applied :=
                   ska_mark := None; ska_dev := None; ska_utimeout := ska_utimeout a |}
   | _ => a
   end.
+
+(* listen() and initUpstream add the constant TCP_USER_TIMEOUT = 5000 ms to the configured options *)
+Definition sko_router_utimeout : N := 5000.
+Definition sko_router_control (o : sko_opts) (n : sko_net) : sko_applied :=
+  sko_control {| sko_reuseport := sko_reuseport o; sko_rcvbuf := sko_rcvbuf o; sko_sndbuf := sko_sndbuf o;
+                 sko_mark := sko_mark o; sko_dev := sko_dev o; sko_utimeout := sko_router_utimeout |} n.
